@@ -10,21 +10,28 @@ UNITS = [Unit('c01_slab_p%d' % p, flat=True, cxxflags=['-DVP_POLICY=%d' % p], sr
 OPN = {0: 'alloc', 1: 'free', 2: 'dealloc', 3: 'realloc'}
 SIZES12 = [0, 8, 9, 16, 17, 32, 33, 64, 65, 128, 129, 200]      # every class, both sides of every class boundary, the small/large threshold, 2/3/4-page large frames
 SIZES6 = [0, 8, 24, 64, 65, 129]
-def scen(pol, ops, hs, sel0, sizes, faults=0, timeout=1500, mem=6, optional=False):
+# poisoning policy: every carved slot costs one entry of the harness's poison log, so the 8- and 16-byte classes (51 / 25 slots per slab) are left to
+# policies 1 and 2; the poison clauses are checked on the 32- and 64-byte classes and on large frames
+SIZES_P3 = [24, 32, 33, 64, 65, 129]
+def scen(pol, ops, hs, sel0, sizes, faults=0, timeout=1500, mem=6, optional=False, sel1=None):
     K = len(ops)
-    name = 'p%d.%s.s%d%s' % (pol, '-'.join('%s%s' % (OPN[o], '' if o == 0 else h) for o, h in zip(ops, hs)), sizes[sel0], '.fault' if faults else '')
+    name = 'p%d.%s.s%d%s%s' % (pol, '-'.join('%s%s' % (OPN[o], '' if o == 0 else h) for o, h in zip(ops, hs)), sizes[sel0], '' if sel1 is None else '.s%d' % sizes[sel1], '.fault' if faults else '')
     defs = {'K': K, 'POLICY': pol, 'UNIT_H': '"c01_slab_p%d.h"' % pol, 'NREG': 22, 'IR2C_USE_REGIONS': 1, 'IR2C_STACK_BASE': '0x400ULL',
             'OPSEQ': '{' + ','.join(str(o) for o in ops) + '}', 'HSEQ': '{' + ','.join(str(h) for h in hs) + '}', 'SEL0': sel0,
             'SIZES': '{' + ','.join(str(x) for x in sizes) + '}', 'NSZ': len(sizes)}
     if pol == 3: defs['IR2C_ACCESS_HOOK'] = 1
     if faults: defs['FAULTS'] = faults
-    nscen = len(sizes) ** (K - 1) * ((K + 1) if faults else 1)
-    return Q(name, 'c01_slab_p%d' % pol, 'c01_slab.c', 'harness', defs=defs, unwind=max(70, nscen + 2), inline_witness=True, witness='any', timeout=timeout, mem_gb=mem, optional=optional,
-             unwind_fn=[(r'^reset_all$', 70), (r'^harness$', len(sizes) + K + 3)], solver='minisat2',
-             bounds={'operations': K, 'operation kinds': [OPN[o] + ('' if o == 0 else ' of block %d' % h) for o, h in zip(ops, hs)], 'first size': sizes[sel0], 'later sizes': 'every entry of %s' % sizes,
+    if sel1 is not None: defs['SEL1'] = sel1
+    nscen = len(sizes) ** (K - 1 - (sel1 is not None)) * ((K + 1) if faults else 1)
+    q = Q(name, 'c01_slab_p%d' % pol, 'c01_slab.c', 'harness', defs=defs, unwind=max(70, nscen + 2), inline_witness=True, witness='any', timeout=timeout, mem_gb=mem, optional=optional,
+             unwind_fn=[(r'^reset_all$', 70), (r'^harness$', len(sizes) + K + 3), (r'^(check_block|check_content|fill|is_poisoned)$', 300)], solver='minisat2',
+             bounds={'operations': K, 'operation kinds': [OPN[o] + ('' if o == 0 else ' of block %d' % h) for o, h in zip(ops, hs)], 'first size': sizes[sel0], 'second size': 'fixed: %d' % sizes[sel1] if sel1 is not None else 'every table entry', 'later sizes': 'every entry of %s' % sizes,
                      'scenarios in this query': nscen, 'map failure': 'at every map call position 0..%d' % K if faults else 'none', 'policy': 'page 64, slab = superblock 512, 4 classes; ' + POL[pol],
                      'mode': 'concrete symbolic execution of the real code over flat word-granular memory (scenario parameters enumerated, no symbolic inputs)'},
              what='%s: first size %d, every later size from the table%s, policy %s: all clauses of C01-C04 and lock discipline after every operation' % ('/'.join(OPN[o] for o in ops), sizes[sel0], ', map() failing at every call position' if faults else '', POL[pol]))
+    if pol == 3: q.replay = 'generated'      # the poison access hook exists only in the flat-memory build
+    q.tag = {'pol': pol, 'ops': list(ops), 'faults': faults, 'K': K, 'size0': sizes[sel0]}
+    return q
 SEQ2 = [([0, 0], [0, 0]), ([0, 1], [0, 0]), ([0, 2], [0, 0]), ([0, 3], [0, 0]), ([3, 3], [0, 0]), ([3, 1], [0, 0])]
 SEQ3 = [([0, 0, 0], [0, 0, 0]), ([0, 0, 1], [0, 0, 0]), ([0, 1, 0], [0, 0, 0]), ([0, 3, 0], [0, 0, 0]), ([0, 3, 3], [0, 0, 0]), ([0, 0, 3], [0, 0, 1]), ([0, 1, 3], [0, 0, 0]), ([0, 0, 2], [0, 0, 1])]
 SEQ4 = [([0, 0, 1, 0], [0, 0, 0, 0]), ([0, 1, 0, 1], [0, 0, 0, 2]), ([0, 0, 3, 1], [0, 0, 0, 1]), ([0, 0, 0, 0], [0, 0, 0, 0])]
@@ -32,21 +39,29 @@ def all_queries(tier):
     qs = []
     quick = tier == 'quick'
     for pol in (1, 2, 3):
-        sel0s = range(12) if not quick else ((1, 3, 7, 8, 10, 11) if pol == 1 else (3, 7, 8, 10))
+        S12 = SIZES12 if pol != 3 else SIZES_P3
+        S6 = SIZES6 if pol != 3 else SIZES_P3
+        sel0s = range(len(S12)) if not quick else ((1, 3, 7, 8, 10, 11) if pol == 1 else ((3, 7, 8, 10) if pol == 2 else (0, 3, 4, 5)))
         for (ops, hs) in SEQ2:
-            for s0 in sel0s: qs.append(scen(pol, ops, hs, s0, SIZES12))
+            for s0 in sel0s: qs.append(scen(pol, ops, hs, s0, S12))
         for (ops, hs) in (SEQ2 if not quick else SEQ2[:4]):
-            for s0 in (range(12) if not quick else ((3, 8) if pol == 1 else (8,))): qs.append(scen(pol, ops, hs, s0, SIZES12, faults=1))
-        for (ops, hs) in (SEQ3 if not quick else (SEQ3[1:4] if pol == 1 else [])):
-            for s0 in (range(6) if not quick else (1, 4)): qs.append(scen(pol, ops, hs, s0, SIZES6, timeout=2400, mem=8))
+            for s0 in (range(len(S12)) if not quick else ((3, 8) if pol == 1 else ((8,) if pol == 2 else (4,)))): qs.append(scen(pol, ops, hs, s0, S12, faults=1))
+        for (ops, hs) in (SEQ3 if not quick else (SEQ3[1:4] if pol == 1 else SEQ3[2:3])):
+            for s0 in (range(6) if not quick else (1, 4)):
+                for s1 in (range(6) if not quick else (3, 5)): qs.append(scen(pol, ops, hs, s0, S6, sel1=s1, timeout=1500, mem=6))
         if not quick:
             for (ops, hs) in SEQ3[:5]:
-                for s0 in range(6): qs.append(scen(pol, ops, hs, s0, SIZES6, faults=1, timeout=3000, mem=10, optional=True))
+                for s0 in range(6):
+                    for s1 in (1, 3, 4): qs.append(scen(pol, ops, hs, s0, S6, faults=1, sel1=s1, timeout=2400, mem=8, optional=True))
     if not quick:
         for (ops, hs) in SEQ4:
-            for s0 in range(6): qs.append(scen(1, ops, hs, s0, SIZES6, timeout=3600, mem=12, optional=True))
+            for s0 in (1, 3, 4):
+                for s1 in (1, 4): qs.append(scen(1, ops, hs, s0, SIZES6, sel1=s1, timeout=3600, mem=12, optional=True))
     return qs
-def queries(tier): return all_queries(tier)
+def select(tier, pred):
+    return [q for q in all_queries(tier) if pred(q.tag)]
+# C01: validity/size/alignment/disjointness on every non-fault scenario of the plain policies (aligned and unaligned map)
+def queries(tier): return select(tier, lambda t: t['pol'] in (1, 2) and not t['faults'])
 def validation_queries(tier):
     v = []
     for p in (1, 2):
@@ -64,4 +79,4 @@ ASSUMPTIONS = [
     'contents are compared over the whole reported size of a block (the pool does not know the requested size, so any correct implementation preserves them)',
     'single thread (C05 interleavings are not covered here)',
 ]
-OUTSIDE = ['histories other than the listed operation sequences / longer than 4 operations (no inductive invariant is attempted over raw slab memory)', 'request sizes outside the boundary table', 'policy geometries other than the tiny family, in particular the default 256 KiB slabs', 'thread interleavings']
+OUTSIDE = ['poison clauses for the 8- and 16-byte classes (policy 3 scenarios use sizes 24..200 only)', 'histories other than the listed operation sequences / longer than 4 operations (no inductive invariant is attempted over raw slab memory)', 'request sizes outside the boundary table', 'policy geometries other than the tiny family, in particular the default 256 KiB slabs', 'thread interleavings']
